@@ -808,6 +808,7 @@ func collectionOf(vm *VM, agg func([]Term, *Env) Term, template, goal, instances
 
 func variant(t1, t2 Term, env *Env) bool {
 	s := map[Variable]Variable{}
+	r := map[Variable]Variable{} // the inverse of s: a variant is a renaming, which must be one-to-one.
 	rest := [][2]Term{
 		{t1, t2},
 	}
@@ -823,8 +824,11 @@ func variant(t1, t2 Term, env *Env) bool {
 					if z != y {
 						return false
 					}
+				} else if _, ok := r[y]; ok {
+					return false
 				} else {
 					s[x] = y
+					r[y] = x
 				}
 			default:
 				return false
